@@ -253,6 +253,13 @@ func (dm *DMap) setLRUEvictionStats(e *env) error {
 }
 
 func (dm *DMap) checkPutConditions(e *env) error {
+	if e.lockToken != nil {
+		// Lease: the entry has to be the caller's lock, still.
+		if err := checkLockOwnership(e.fragment, e.hkey, e.lockToken); err != nil {
+			return err
+		}
+	}
+
 	// Only set the key if it does not already exist.
 	if e.putConfig.HasNX {
 		ttl, err := e.fragment.storage.GetTTL(e.hkey)
